@@ -119,9 +119,15 @@ theorem gatesAt_eq (gl : List (Gate × Nat)) (i : Nat) (isAnd : Bool) :
   simp only [gKey, Bool.and_eq_true, beq_iff_eq]
   by_cases ha : a.1.op = .and <;> cases isAnd <;> simp [ha] <;> omega
 
+/-- The gates paired with their `AssignLevels(TargetGMW)` level. -/
+def glv (c : Circuit) : List (Gate × Nat) := c.gates.zip (c.assignLevels true).1
+
+/-- Number of buckets: two per level `0 .. Stats[NumLevels]`. -/
+def kmax (c : Circuit) : Nat := 2 * ((c.assignLevels true).2 + 1)
+
 theorem schedule_eq (c : Circuit) :
-    schedule c = (bucket gKey (c.gates.zip (c.assignLevels true).1)
-      (2 * ((c.assignLevels true).2 + 1))).map Prod.fst := by
+    schedule c = (bucket gKey (glv c) (kmax c)).map Prod.fst := by
+  unfold glv kmax
   rw [bucket_two]
   simp only [schedule, blocks, List.flatMap_map, List.map_flatMap, List.map_append, gatesAt_eq]
   simp
@@ -173,5 +179,192 @@ theorem assignLevels_le_max (c : Circuit) (gmw : Bool) :
     ∀ l ∈ (c.assignLevels gmw).1, l ≤ (c.assignLevels gmw).2 := by
   refine assignLevelsGo_le_max gmw c.gates _ 0 (fun i => ?_)
   simp [Array.getD]
+
+/-! ### The zipped list -/
+
+theorem glv_map_fst (c : Circuit) : (glv c).map Prod.fst = c.gates := by
+  apply List.map_fst_zip
+  simp [Circuit.assignLevels, assignLevelsGo_length]
+
+theorem glv_map_out (c : Circuit) : (glv c).map (fun a => a.1.out) = c.gates.map (·.out) := by
+  have := congrArg (List.map (·.out)) (glv_map_fst c)
+  rw [List.map_map] at this
+  exact this
+
+theorem glv_nodup_out (c : Circuit) (hssa : SSA c.numWires c.gates c.inputDefined) :
+    ((glv c).map (fun a => a.1.out)).Nodup := by
+  rw [glv_map_out]; exact hssa.2.1
+
+theorem glv_mem_gate (c : Circuit) (a : Gate × Nat) (ha : a ∈ glv c) : a.1 ∈ c.gates :=
+  (List.of_mem_zip (a := a.1) (b := a.2) ha).1
+
+theorem gKey_lt (c : Circuit) : ∀ a ∈ glv c, gKey a < kmax c := by
+  intro a ha
+  have := assignLevels_le_max c true a.2 (List.of_mem_zip (a := a.1) (b := a.2) ha).2
+  simp only [gKey, kmax]
+  split <;> omega
+
+/-- `C09_assignLevels_mono` for the GMW target. -/
+theorem levels_mono (c : Circuit) (hssa : SSA c.numWires c.gates c.inputDefined) :
+    ∀ pre a post, glv c = pre ++ a :: post →
+    ∀ h ∈ pre, h.1.out ∈ a.1.ins → h.2 + bump true h.1 ≤ a.2 := by
+  refine assignLevelsGo_mono true c.gates _ 0 hssa.2.1 (fun g hg => ?_)
+  simp only [Array.size_replicate]
+  exact (wf_bounds c.numWires c.gates _ hssa.1 g hg).2
+
+/-! ### Blocks -/
+
+theorem mem_blocks (c : Circuit) (b : List Gate × List Gate) (hb : b ∈ blocks c) :
+    ∃ i, b = (gatesAt (glv c) i false, gatesAt (glv c) i true) := by
+  simp only [blocks, List.mem_map, List.mem_range] at hb
+  obtain ⟨i, _, rfl⟩ := hb
+  exact ⟨i, rfl⟩
+
+theorem mem_gatesAt (gl : List (Gate × Nat)) (i : Nat) (isAnd : Bool) (g : Gate) :
+    g ∈ gatesAt gl i isAnd ↔ (g, i) ∈ gl ∧ (g.op == .and) = isAnd := by
+  simp only [gatesAt, List.mem_map, List.mem_filter, Bool.and_eq_true, beq_iff_eq]
+  constructor
+  · rintro ⟨⟨g', l⟩, ⟨hm, rfl, hop⟩, rfl⟩; exact ⟨hm, hop⟩
+  · rintro ⟨hm, hop⟩; exact ⟨(g, i), ⟨hm, rfl, hop⟩, rfl⟩
+
+/-- the gates of one block keep their classification -/
+theorem blocks_ops (c : Circuit) :
+    ∀ b ∈ blocks c, (∀ g ∈ b.1, g.op ≠ .and) ∧ (∀ g ∈ b.2, g.op = .and) := by
+  intro b hb
+  obtain ⟨i, rfl⟩ := mem_blocks c b hb
+  constructor
+  · intro g hg
+    have := ((mem_gatesAt _ _ _ _).mp hg).2
+    simpa using this
+  · intro g hg
+    have := ((mem_gatesAt _ _ _ _).mp hg).2
+    simpa using this
+
+theorem blocks_mem (c : Circuit) :
+    ∀ b ∈ blocks c, (∀ g ∈ b.1, g ∈ c.gates) ∧ (∀ g ∈ b.2, g ∈ c.gates) := by
+  intro b hb
+  obtain ⟨i, rfl⟩ := mem_blocks c b hb
+  constructor <;> intro g hg <;> exact glv_mem_gate c (g, i) ((mem_gatesAt _ _ _ _).mp hg).1
+
+/-! ### The schedule is a topological reordering -/
+
+theorem schedule_perm (c : Circuit) (hssa : SSA c.numWires c.gates c.inputDefined) :
+    (schedule c).Perm c.gates := by
+  have _ := hssa
+  have := (bucket_perm gKey (glv c) (kmax c) (gKey_lt c)).map Prod.fst
+  rwa [glv_map_fst, ← schedule_eq] at this
+
+theorem schedule_wf (c : Circuit) (hssa : SSA c.numWires c.gates c.inputDefined) :
+    wfFrom c.numWires (schedule c) c.inputDefined = true := by
+  rw [schedule_eq]
+  have hwf : wfFrom c.numWires ((glv c).map Prod.fst) c.inputDefined = true := by
+    rw [glv_map_fst]; exact hssa.1
+  have hperm := bucket_perm gKey (glv c) (kmax c) (gKey_lt c)
+  have hndl : (glv c).Nodup :=
+    List.Pairwise.of_map _ (fun a b hab h => hab (by rw [h])) (glv_nodup_out c hssa)
+  have hnds := (hperm.nodup_iff).mpr hndl
+  have hbl := wf_bounds c.numWires _ _ hwf
+  apply wf_of_pre Prod.fst c.numWires
+  · intro a ha
+    exact hbl a.1 (List.mem_map_of_mem (hperm.mem_iff.mp ha))
+  · intro pre a post hl w hw
+    have ha : a ∈ glv c := hperm.mem_iff.mp (by rw [hl]; simp)
+    obtain ⟨p0, q0, hl0⟩ := List.append_of_mem ha
+    have hwf0 := hwf
+    rw [hl0] at hwf0
+    rcases wf_pre Prod.fst c.numWires p0 a q0 _ hwf0 w hw with h | ⟨h, hh, rfl⟩
+    · exact Or.inl h
+    · right
+      have hsub : List.Sublist [h, a] (glv c) := by
+        rw [hl0]
+        exact (List.singleton_sublist.mpr hh).append
+          (List.singleton_sublist.mpr List.mem_cons_self)
+      have hmono := levels_mono c hssa p0 a q0 hl0 h hh hw
+      have hle : gKey h ≤ gKey a := by
+        simp only [gKey, bump, if_true] at hmono ⊢
+        by_cases h1 : h.1.op = .and <;> by_cases h2 : a.1.op = .and <;>
+          simp [h1, h2] at hmono ⊢ <;> omega
+      have hsub' := bucket_pair_sublist gKey (glv c) h a hsub hle (kmax c) (gKey_lt c a ha)
+      rw [hl] at hsub' hnds
+      exact ⟨h, mem_pre_of_pair_sublist h a pre post hsub' hnds, rfl⟩
+
+theorem schedule_ssa (c : Circuit) (hssa : SSA c.numWires c.gates c.inputDefined) :
+    SSA c.numWires (schedule c) c.inputDefined := by
+  have hp := schedule_perm c hssa
+  exact ⟨schedule_wf c hssa, ((hp.map _).nodup_iff).mpr hssa.2.1,
+    fun g hg => hssa.2.2 g (hp.mem_iff.mp hg)⟩
+
+/-- `gmw_level_schedule`: evaluating the gates in the order of `Network.run` gives every wire the value of
+in-order evaluation. -/
+theorem gmw_level_schedule (c : Circuit) (hssa : SSA c.numWires c.gates c.inputDefined) (x : List Bool) :
+    ∀ w, (evalPlainGates (schedule c) (initStore c.numWires false (x.take c.nIn))).get w =
+      (c.plainEval x).get w :=
+  perm_eval c.numWires c.gates (schedule c) c.inputDefined _ (by simp [initStore]) hssa
+    (schedule_perm c hssa) (schedule_wf c hssa)
+
+/-! ### Independence of the AND batch -/
+
+/-- A gate of level `i` reads no output of an AND gate of level `i`. -/
+theorem and_level_indep (c : Circuit) (hssa : SSA c.numWires c.gates c.inputDefined) (i : Nat)
+    (g h : Gate) (hg : (g, i) ∈ glv c) (hh : (h, i) ∈ glv c) (hop : h.op = .and)
+    (w : Nat) (hw : w ∈ g.ins) : h.out ≠ w := by
+  intro heq
+  obtain ⟨p0, q0, hl0⟩ := List.append_of_mem hg
+  have hwf0 : wfFrom c.numWires ((glv c).map Prod.fst) c.inputDefined = true := by
+    rw [glv_map_fst]; exact hssa.1
+  rw [hl0] at hwf0
+  have hhg : h ∈ c.gates := glv_mem_gate c (h, i) hh
+  rcases wf_pre Prod.fst c.numWires p0 (g, i) q0 _ hwf0 w hw with hd | ⟨h', hh', hout⟩
+  · rw [← heq, hssa.2.2 h hhg] at hd
+    exact Bool.false_ne_true hd
+  · have hmem : h' ∈ glv c := by rw [hl0]; exact List.mem_append_left _ hh'
+    have hq : h' = (h, i) :=
+      eq_of_nodup_map (fun a => a.1.out) (glv c) (glv_nodup_out c hssa) h' hmem (h, i) hh
+        (by simp only [hout, heq])
+    subst hq
+    have := levels_mono c hssa p0 (g, i) q0 hl0 (h, i) hh' (by simp only [heq]; exact hw)
+    simp only [bump, hop, beq_self_eq_true, if_true] at this
+    omega
+
+/-- the AND gates of one level do not feed each other (nor themselves) -/
+theorem blocks_indep (c : Circuit) (hssa : SSA c.numWires c.gates c.inputDefined) :
+    ∀ b ∈ blocks c, ∀ g ∈ b.2, ∀ h ∈ b.2, h.out ≠ g.in0 ∧ h.out ≠ g.in1 := by
+  intro b hb g hg h hh
+  obtain ⟨i, rfl⟩ := mem_blocks c b hb
+  obtain ⟨hgm, hgo⟩ := (mem_gatesAt _ _ _ _).mp hg
+  obtain ⟨hhm, hho⟩ := (mem_gatesAt _ _ _ _).mp hh
+  have hgo' : g.op = .and := by simpa using hgo
+  have hho' : h.op = .and := by simpa using hho
+  have hbin : g.op.binary = true := by rw [hgo']; rfl
+  exact ⟨and_level_indep c hssa i g h hgm hhm hho' _ ((mem_ins _ _).mpr (Or.inl rfl)),
+    and_level_indep c hssa i g h hgm hhm hho' _ ((mem_ins _ _).mpr (Or.inr ⟨hbin, rfl⟩))⟩
+
+/-! ### Distinct outputs within a block -/
+
+theorem nodup_filter_append {α β : Type} (f : α → β) (l : List α) (p q : α → Bool)
+    (hnd : (l.map f).Nodup) (hpq : ∀ a ∈ l, p a = true → q a = true → False) :
+    ((l.filter p ++ l.filter q).map f).Nodup := by
+  rw [List.map_append, List.nodup_append]
+  refine ⟨hnd.sublist (List.filter_sublist.map f), hnd.sublist (List.filter_sublist.map f), ?_⟩
+  intro x hx y hy hxy
+  obtain ⟨a, ha, rfl⟩ := List.mem_map.mp hx
+  obtain ⟨b, hb, rfl⟩ := List.mem_map.mp hy
+  rw [List.mem_filter] at ha hb
+  have := eq_of_nodup_map f l hnd a ha.1 b hb.1 hxy
+  subst this
+  exact hpq a ha.1 ha.2 hb.2
+
+/-- outputs within one block are pairwise distinct -/
+theorem blocks_nodup (c : Circuit) (hssa : SSA c.numWires c.gates c.inputDefined) :
+    ∀ b ∈ blocks c, ((b.1 ++ b.2).map (·.out)).Nodup := by
+  intro b hb
+  obtain ⟨i, rfl⟩ := mem_blocks c b hb
+  simp only [gatesAt, ← List.map_append, List.map_map]
+  refine nodup_filter_append _ _ _ _ (glv_nodup_out c hssa) ?_
+  intro a _ h1 h2
+  simp only [Bool.and_eq_true, beq_iff_eq] at h1 h2
+  have h3 := h1.2
+  simp only [h2.2, beq_self_eq_true] at h3
+  exact Bool.noConfusion h3
 
 end Mpc.Gmw
